@@ -374,6 +374,16 @@ def bounded_checks(tab, seed, tier):
                 bad |= ~(np.abs(w + wc - 1.0) <= 2 * atol)
             else:
                 bad |= ~(w + wc <= 1.0 + 2 * atol)
+            if bg != 0.0 and s % 2 == 0:
+                # ... and a later call WITHOUT the keyword is back at background 0 (an option given once is not remembered)
+                w0 = np.asarray(StockholderWeight.from_arrays(Z[:cut], pos[:cut], Z[cut:], pos[cut:]).weights(pts), dtype=np.float64)
+                ev_w += len(pts)
+                bad0 = ~(np.abs(w0 - ea / (ea + eb)) <= atol)
+                if bad0.any():
+                    k = int(np.argmax(bad0))
+                    rec(f_w, "weights_default_after_option", {"Z": Z.tolist(), "atoms": pos.tolist(), "cut": cut, "history": f"from_arrays(..., background={bg}) then from_arrays(...) without the keyword",
+                                                              "point": pts[k].tolist()}, {"w": float(w0[k]), "oracle_without_background": float((ea / (ea + eb))[k])},
+                        "from_arrays without a background keyword uses background 0, whatever earlier calls were given")
             if bad.any():
                 k = int(np.argmax(bad))
                 rec(f_w, "weights", {"Z": Z.tolist(), "atoms": pos.tolist(), "cut": cut, "background": bg, "point": pts[k].tolist()},
